@@ -28,7 +28,8 @@ inline std::enable_if_t<!std::is_unsigned<T>::value, T> diff(T const &a, T const
 template <typename T>
 inline std::enable_if_t<std::is_unsigned<T>::value, T> diff(T const &a, T const &b)
 {
-  return std::min(a - b, b - a);
+  // Subtract the smaller from the larger value, so that nothing wraps around.
+  return static_cast<T>(a < b ? b - a : a - b);
 }
 
 }
